@@ -165,6 +165,30 @@ pub fn run(seed: u64, n: usize, driver: &str, out: &str) -> serde_json::Value {
                 prev = cur;
             }
         }
+        // ---- C19 at the scores themselves: a language is listed EXACTLY when its score reaches the threshold, so at a
+        //      threshold bit-equal to its score it is listed, one ulp above it is not (scores above 0.8 end the scan early:
+        //      the property speaks of thresholds up to 0.8) ----
+        if include.is_empty() && i % 2 == 0 {
+            let base = hooks::coherence_ratio_no_cache(t.clone(), Some(0.0), Some(vec![])).unwrap_or_default();
+            for (lang, score) in base.iter().take(4) {
+                if !(*score > 0.0 && *score <= 0.8) { continue; }
+                for (th, expect) in [(*score, true), (f32::from_bits(score.to_bits() + 1), false), (f32::from_bits(score.to_bits() - 1), true)] {
+                    evals += 1;
+                    let cur = hooks::coherence_ratio_no_cache(t.clone(), Some(th), Some(vec![])).unwrap_or_default();
+                    let listed = cur.iter().any(|(l, _)| l == lang);
+                    if listed != expect {
+                        violations.push(json!({"prop": "C19", "what": format!("{:?} has score {} (bits {}) but at language threshold {} (bits {}) it is {}", lang, score, score.to_bits(), th, th.to_bits(), if listed { "listed" } else { "not listed" }),
+                            "known": null, "case": {"text_hex": hex(t.as_bytes()), "threshold": th, "include": "-"}}));
+                    }
+                    // and the model agrees at exactly that threshold
+                    let real = format!("R OK {}", coh_str(&cur));
+                    let model = drv.coherence_model(&t, th, "-");
+                    if real != model {
+                        diffs.push(json!({"what": "coherence_ratio at a threshold equal to / next to a score", "text_hex": hex(t.as_bytes()), "threshold_bits": th.to_bits(), "real": real, "model": model}));
+                    }
+                }
+            }
+        }
         // ---- merge / filter_alt with random lists ----
         if i % 3 == 0 {
             let k = rng.range(0, 5);
